@@ -78,8 +78,9 @@ def _key_zip(node, m):
 
 TEMPLATES = [
     ('map', _u('map', fn=0)),
+    ('nonemap', _u('nonemap', m=2, r=0)),
     ('filter_lazy', _u('filter', m=2, r=0, lazy=True)),
-    ('filter_eager', _u('filter', m=2, r=1, lazy=False)),
+    ('filter_eager', _u('filter', m=2, r=1, lazy=False, int=True)),
     ('slice_tail', _slice({'k': 'slice', 'a': 1, 'b': None, 'c': None})),
     ('slice_rev', _slice({'k': 'slice', 'a': None, 'b': None, 'c': -1})),
     ('slice_step2', _slice({'k': 'slice', 'a': None, 'b': -1, 'c': 2})),
@@ -181,3 +182,6 @@ def enum_structural():
         for n in range(0, 5):
             for r in range(1, 5):
                 yield ('tile',), {'op': 'tile', 'r': r, 'in': _src(kind, 1, n)}
+                for sd in (0, 1, 2):
+                    yield ('tile_shuffle',), {'op': 'tile', 'r': r, 'shuffle': True, 'np_seed': sd,
+                                              'in': _src(kind, 1, n)}
